@@ -23,6 +23,8 @@ USES = [  # (Def form, Def-expand form)
     ("Def/aaa", "(Def-expand/aaa, (Blue, Red, (Square, Triangle)))"),
     ("Def/Ddd", "(Def-expand/Ddd, (Action))"),
     ("Def/Eee/3", "(Def-expand/Eee/3, (Square, Speed/3 mph))"),
+    ("def/Ddd", "(def-expand/Ddd, (Action))"),                       # the Def / Def-expand tag itself in another letter case
+    ("DEF/Bbb/4", "(DEF-EXPAND/Bbb/4, (Age/4, Green))"),
 ]
 SKEL = {1: ["Item, {0}", "({0}, Item)", "((Item, {0}), Event)", "{0}"],
         2: ["{0}, {1}", "({0}, Item), ({1}, Event)", "(({0}), Item), {1}", "(Item, ({0}, ({1}, Event)))"]}
